@@ -13,6 +13,7 @@ use std::ops::ControlFlow;
 use std::str::Utf8Error;
 
 /// Decodes headers using HPACK
+#[cfg_attr(feature = "verif-hooks", derive(Clone))]
 #[derive(Debug)]
 pub struct Decoder {
     // Protocol indicated that the max table size will update
@@ -142,6 +143,7 @@ enum Representation {
     SizeUpdate,
 }
 
+#[cfg_attr(feature = "verif-hooks", derive(Clone))]
 #[derive(Debug)]
 struct Table {
     entries: VecDeque<Header>,
